@@ -130,9 +130,20 @@ struct Explorer {
             auto queries = queries_for(data);
             bool ok;
             {
-                Index ix(data.begin(), data.end(), f);
-                run.add(cn.containers);
-                ok = battery(ix, data, queries, cs, "range-created container");
+                // the range constructor takes any random-access range: every other array comes from a std::deque whose first half was
+                // pushed to the front, so that even a two-element sequence is not contiguous in memory
+                if ((data.size() + size_t(data.back())) % 2 == 1) {
+                    std::deque<K> dq; size_t h = data.size() / 2;
+                    for (size_t i = h; i < data.size(); ++i) dq.push_back(data[i]);
+                    for (size_t i = h; i-- > 0;) dq.push_front(data[i]);
+                    Index ix(dq.begin(), dq.end(), f);
+                    run.add(cn.containers);
+                    ok = battery(ix, data, queries, cs, "range-created container (from a std::deque)");
+                } else {
+                    Index ix(data.begin(), data.end(), f);
+                    run.add(cn.containers);
+                    ok = battery(ix, data, queries, cs, "range-created container");
+                }
             }
             // the sequence is "stored in a MappedPGMIndex" whichever way the container came to be: the reopened container for every array,
             // the raw-file-created one (and its reopening) for every third array
@@ -191,9 +202,16 @@ struct Explorer {
         run.add(cn.arrays); run.add(cn.nontrivial);
         std::string f = g_dir + "/fam.bin";
         try {
-            Index ix(data.begin(), data.end(), f);
-            run.add(cn.containers);
-            battery(ix, data, queries, cs, "range-created container");
+            if ((spec.n + spec.seam + spec.word) % 2 == 1) {
+                std::deque<K> dq(data.begin(), data.end());
+                Index ix(dq.begin(), dq.end(), f);
+                run.add(cn.containers);
+                battery(ix, data, queries, cs, "range-created container (from a std::deque)");
+            } else {
+                Index ix(data.begin(), data.end(), f);
+                run.add(cn.containers);
+                battery(ix, data, queries, cs, "range-created container");
+            }
         } catch (const std::exception &e) { run.violation(cs, std::string("construction threw on valid data: ") + e.what()); }
         close_leaked_fds();
         unlink(f.c_str());
